@@ -1621,10 +1621,29 @@ func isCallbackResult(v ssa.Value) bool {
 // returns that slice. Its caller, ranging over the result, is the consumer of the
 // iteration (`for _, e := range k.GetDue(ctx, h) { … }`).
 func (cx *Ctx) snapshotCollector(f *ssa.Function) bool {
-	if f == nil || f.Blocks == nil || f.Signature.Results().Len() != 1 {
+	_, ok := cx.snapshotCollectorIdx(f)
+	return ok
+}
+
+// snapshotCollectorIdx: which result is the list of collected entries (a collector may hand
+// back the list together with a lookup table filled in the same loop).
+func (cx *Ctx) snapshotCollectorIdx(f *ssa.Function) (int, bool) {
+	if f == nil || f.Blocks == nil {
+		return -1, false
+	}
+	for i := 0; i < f.Signature.Results().Len(); i++ {
+		if cx.snapshotCollectorAt(f, i) {
+			return i, true
+		}
+	}
+	return -1, false
+}
+
+func (cx *Ctx) snapshotCollectorAt(f *ssa.Function, idx int) bool {
+	if f == nil || f.Blocks == nil || idx >= f.Signature.Results().Len() {
 		return false
 	}
-	sl, ok := f.Signature.Results().At(0).Type().Underlying().(*types.Slice)
+	sl, ok := f.Signature.Results().At(idx).Type().Underlying().(*types.Slice)
 	if !ok {
 		return false
 	}
@@ -1675,8 +1694,8 @@ func (cx *Ctx) snapshotCollector(f *ssa.Function) bool {
 		}
 	}
 	for _, ret := range returnsOf(f) {
-		if len(ret.Results) == 1 {
-			back(ret.Results[0])
+		if idx < len(ret.Results) {
+			back(ret.Results[idx])
 		}
 	}
 	return len(sites) > 0 && loopHeaderOf(sites[0].Block()) == h && perIterationMust(sites)
@@ -1792,6 +1811,16 @@ func (cx *Ctx) iterationConsumer(itFr *Frame) (loopFr *Frame, h *ssa.BasicBlock,
 		return loopFr, h, loopFr, h, true
 	}
 	cv, _ := loopFr.Call.(ssa.Value)
+	if idx, _ := cx.snapshotCollectorIdx(loopFr.Fn); cv != nil && loopFr.Fn.Signature.Results().Len() > 1 && cv.Referrers() != nil {
+		// (list, table := collect(…)): the list is result #idx of the call
+		var ex ssa.Value
+		for _, r := range *cv.Referrers() {
+			if e, ok := r.(*ssa.Extract); ok && e.Index == idx {
+				ex = e
+			}
+		}
+		cv = ex
+	}
 	ch = rangeLoopOver(cv)
 	if ch == nil {
 		return loopFr, h, nil, nil, false
